@@ -11,7 +11,7 @@ LOG=/verif/work/seedlogs/$NAME.log
 {
 rm -rf $M $S && cp -r /repo $M && rm -rf $M/.git && mkdir -p $S
 ( cd $M && patch -p1 -s < "$SD/patch.diff" ) || { echo "PATCH DOES NOT APPLY"; rm -rf $M $S; exit 2; }
-echo "== tests with change (baseline: 54 passed, 2 failed [Rscript]):"; ( cd $M && /venv/bin/python -m pytest -q -p no:cacheprovider -n 6 --timeout=900 2>&1 | tail -1 )
+if [ "${TESTS:-1}" = 1 ]; then echo "== tests with change (baseline: 54 passed, 2 failed [Rscript]):"; ( cd $M && /venv/bin/python -m pytest -q -p no:cacheprovider -n 6 --timeout=900 2>&1 | tail -1 ); fi
 echo "== demo with change (expect non-zero):"; ( cd $M && PYTHONPATH=$M PYTHONDONTWRITEBYTECODE=1 /venv/bin/python "$SD/demo.py" >$S/demo.out 2>&1; echo "exit=$?"; tail -3 $S/demo.out | cut -c1-300 )
 echo "== demo on unchanged tree (expect 0):"; ( cd /repo && PYTHONPATH=/repo PYTHONDONTWRITEBYTECODE=1 /venv/bin/python "$SD/demo.py" >$S/demo.out 2>&1; echo "exit=$?"; tail -1 $S/demo.out | cut -c1-300 )
 for P in "$@"; do
